@@ -1,7 +1,7 @@
 INIT Init
 NEXT Next
 CONSTANTS
-  Writes <- MCW4
+  Writes <- MCW3
   FailW <- MCNone
   Readers = {r1}
   Role = "replica"
@@ -9,7 +9,7 @@ CONSTANTS
   SvcSizes <- MCSvc
   StartSize = 24
   Size <- MCSize
-  MaxCrash = 1
+  MaxCrash = 2
   MaxReads = 1
   MaxClose = 0
   AllowDesync = FALSE
